@@ -22,6 +22,8 @@ type Variant struct {
 	File   string
 	Old    string
 	New    string
+	Old2   string // optional second edit in the same file
+	New2   string
 	Expect string // substring expected in a violation line ("<rule> <key>")
 	Note   string
 }
@@ -44,6 +46,12 @@ func variantOverlay(repo, prop, id string) (map[string][]byte, error) {
 			return nil, fmt.Errorf("anchor occurs %d times in %s", n, v.File)
 		}
 		nb := bytes.Replace(b, []byte(v.Old), []byte(v.New), 1)
+		if v.Old2 != "" {
+			if n := bytes.Count(nb, []byte(v.Old2)); n != 1 {
+				return nil, fmt.Errorf("second anchor occurs %d times in %s", n, v.File)
+			}
+			nb = bytes.Replace(nb, []byte(v.Old2), []byte(v.New2), 1)
+		}
 		return map[string][]byte{path: nb}, nil
 	}
 	return nil, fmt.Errorf("no such variant")
